@@ -28,3 +28,19 @@ pub assume_specification<T: ?Sized>[ std::sync::RwLock::<T>::write ](l: &std::sy
     ensures r is Ok, wguard_content(&r->Ok_0) == lock_content(l);
 pub assume_specification<'a, 'b, T: ?Sized>[ <std::sync::RwLockReadGuard<'a, T> as core::ops::Deref>::deref ](g: &'b std::sync::RwLockReadGuard<'a, T>) -> (r: &'b T)
     ensures r == rguard_content(g);
+
+// ---- Mutex ---------------------------------------------------------------------------------------------
+#[verifier::external_type_specification]
+#[verifier::external_body]
+#[verifier::reject_recursive_types(T)]
+pub struct ExMutex<T: ?Sized>(std::sync::Mutex<T>);
+#[verifier::external_type_specification]
+#[verifier::external_body]
+#[verifier::reject_recursive_types(T)]
+pub struct ExMutexGuard<'a, T: ?Sized + 'a>(std::sync::MutexGuard<'a, T>);
+/// oracle: whether the lock is poisoned (both outcomes are considered)
+pub uninterp spec fn mutex_poisoned<T: ?Sized>(l: &std::sync::Mutex<T>) -> bool;
+pub assume_specification<T: ?Sized>[ std::sync::Mutex::<T>::lock ](l: &std::sync::Mutex<T>) -> (r: std::sync::LockResult<std::sync::MutexGuard<'_, T>>)
+    ensures r is Ok <==> !mutex_poisoned(l);
+pub assume_specification<'a, 'b, T: ?Sized>[ <std::sync::MutexGuard<'a, T> as core::ops::DerefMut>::deref_mut ](g: &'b mut std::sync::MutexGuard<'a, T>) -> (r: &'b mut T);
+pub assume_specification<'a, 'b, T: ?Sized>[ <std::sync::MutexGuard<'a, T> as core::ops::Deref>::deref ](g: &'b std::sync::MutexGuard<'a, T>) -> (r: &'b T);
